@@ -54,17 +54,25 @@ def run_case(c):
         return out
     x = np.array(c['x'], dtype=float).reshape(c['shape'])
     ref['x'] = x
+    return evaluate(wf, c, x, log, out)
+
+
+def evaluate(wf, c, x, log, out):
+    """one call wf.pointer(x); c['comps'] / c['ws'] describe the CURRENT components and weights of wf"""
+    del log[:]
+    k = len(c['comps'])
+    nw = len(c['ws'])
     snap = x.tobytes()
     try:
         val = wf.pointer(x)
     except Exception as ex:  # noqa: BLE001
         out['raised'] = type(ex).__name__ + ': ' + str(ex)[:200]
-        if len(comps) == len(ws) and len(comps) >= 1:
+        if k == nw and k >= 1:
             out['oracle'] = 'pointer(x) raised ' + out['raised']
             out['okey'] = 'value'
         return out
     mutated = x.tobytes() != snap
-    out['log'] = log
+    out['log'] = [list(e) for e in log]
     out['mutated'] = mutated
     try:
         fv = float(val)
@@ -73,8 +81,7 @@ def run_case(c):
     except Exception:  # noqa: BLE001
         out['val_repr'] = repr(val)[:100]
     # ---- the property oracle, on the implementation (the text speaks about equally long lists, k >= 1)
-    k = len(comps)
-    if k == len(ws) and k >= 1:
+    if k == nw and k >= 1:
         xs = [int(v) for v in c['x']]
         exact = sum(w * exact_comp(bool(sq), a, b, xs) for w, (sq, a, b) in zip(c['ws'], c['comps']))
         orig = [float(v) for v in c['x']]
@@ -95,6 +102,96 @@ def run_case(c):
             out['okey'] = 'value'
         out['exact'] = exact
     return out
+
+
+def run_seq(c):
+    """build -> evaluate -> re-assign weights / functions (public setters, or in place) -> evaluate, ...
+    c: a case as for run_case plus 'steps': [{'op': 'set_weights', 'ws': [...], 'wtypes': [...]} |
+       {'op': 'set_functions', 'comps': [...]} | {'op': 'weight_in_place', 'i': i, 'w': w} |
+       {'op': 'function_in_place', 'i': i, 'comp': [sq, a, b]}].
+    After every step the value must be the sum over the CURRENT functions and weights (the closure reads
+    self.functions / self.weights when it is called).  -> list of observations (index 0 = before any step)."""
+    log, ref = [], {}
+    cur = {'comps': [list(t) for t in c['comps']], 'ws': list(c['ws']), 'wtypes': list(c['wtypes']), 'x': c['x'], 'shape': c['shape']}
+
+    def mk(i, t):
+        return make_comp(i, bool(t[0]), t[1], t[2], log, ref)
+    obs = []
+    base = {'val': None, 'log': [], 'oracle': None, 'okey': None, 'rejected': None, 'raised': None}
+    try:
+        wf = WeightedFunction(functions=[mk(i, t) for i, t in enumerate(cur['comps'])],
+                              weights=[wrap_weight(w, t) for w, t in zip(cur['ws'], cur['wtypes'])])
+    except Exception as ex:  # noqa: BLE001
+        o = dict(cur, **base)
+        o.update({'rejected': hlib.exc_kind(ex), 'oracle': 'constructor raised %r' % ex, 'okey': 'construct', 'step': None})
+        return [o]
+    x = np.array(c['x'], dtype=float).reshape(c['shape'])
+    ref['x'] = x
+    o = evaluate(wf, cur, x, log, dict(cur, comps=[list(t) for t in cur['comps']], ws=list(cur['ws']), **base))
+    o['step'] = None
+    obs.append(o)
+    for st in c['steps']:
+        try:
+            if st['op'] == 'set_weights':
+                cur['ws'], cur['wtypes'] = list(st['ws']), list(st['wtypes'])
+                wf.weights = [wrap_weight(w, t) for w, t in zip(cur['ws'], cur['wtypes'])]
+            elif st['op'] == 'set_functions':
+                cur['comps'] = [list(t) for t in st['comps']]
+                wf.functions = [Function(pointer=mk(i, t)) for i, t in enumerate(cur['comps'])]
+            elif st['op'] == 'weight_in_place':
+                cur['ws'][st['i']] = st['w']
+                wf.weights[st['i']] = wrap_weight(st['w'], cur['wtypes'][st['i']])
+            elif st['op'] == 'function_in_place':
+                cur['comps'][st['i']] = list(st['comp'])
+                wf.functions[st['i']] = Function(pointer=mk(st['i'], st['comp']))
+            err = None
+        except Exception as ex:  # noqa: BLE001
+            err = type(ex).__name__ + ': ' + str(ex)[:200]
+        o = dict(cur, comps=[list(t) for t in cur['comps']], ws=list(cur['ws']), **base)
+        if err:
+            o.update({'raised': err, 'oracle': 're-assignment %s raised %s' % (st['op'], err), 'okey': 'after-reassign'})
+        else:
+            o = evaluate(wf, cur, x, log, o)
+            if o['oracle']:
+                o['oracle'] = 'after %s: %s' % (st['op'], o['oracle'])
+                o['okey'] = 'after-reassign'
+        o['step'] = st['op']
+        obs.append(o)
+    return obs
+
+
+def gen_seqs():
+    r = hlib.rng('c16seq')
+    seqs = []
+    n = 24 if hlib.QUICK else 300
+    for s in range(n):
+        k = r.randint(1, 5)
+        nv, nd = r.randint(1, 3), r.randint(1, 2)
+        nx = nv * nd
+
+        def comp():
+            return [r.random() < 0.3, [r.randint(-50, 50) for _ in range(nx)], r.randint(-1000, 1000)]
+
+        def weight():
+            return r.choice([0, 1, -1, 2 ** 20, -(2 ** 20)]) if r.random() < 0.4 else r.randint(-5000, 5000)
+        c = {'comps': [comp() for _ in range(k)], 'ws': [weight() or 3 for _ in range(k)],
+             'wtypes': [r.choice(['int', 'float', 'np']) for _ in range(k)],
+             'x': [r.randint(-60, 60) for _ in range(nx)], 'shape': [nv, nd], 'steps': []}
+        ops = ['set_weights', 'weight_in_place', 'set_functions', 'function_in_place']
+        first = ops[s % 4]                 # every kind of re-assignment leads a sequence
+        for j in range(r.randint(1, 3)):
+            op = first if j == 0 else r.choice(ops)
+            if op == 'set_weights':
+                c['steps'].append({'op': op, 'ws': [weight() + 7 * (i + 1) for i in range(k)],
+                                   'wtypes': [r.choice(['int', 'float', 'np']) for _ in range(k)]})
+            elif op == 'weight_in_place':
+                c['steps'].append({'op': op, 'i': r.randrange(k), 'w': weight() + 11})
+            elif op == 'set_functions':
+                c['steps'].append({'op': op, 'comps': [comp() for _ in range(k)]})
+            else:
+                c['steps'].append({'op': op, 'i': r.randrange(k), 'comp': comp()})
+        seqs.append(c)
+    return seqs
 
 
 def gen_cases():
@@ -250,15 +347,16 @@ def optimizer_runs():
 def main():
     p = hlib.payload()
     if p and 'cases' in p:
-        res = {'cases': [run_case(c) for c in p['cases']]}
+        res = {'cases': [run_case(c) for c in p['cases']], 'seqs': [run_seq(c) for c in p.get('seqs', [])]}
         if p.get('interface'):
             res['interface'] = interface_check()
         if p.get('optimizers'):
             res['optimizers'] = optimizer_runs()
         hlib.emit(res)
         return
-    hlib.emit({'cases': [run_case(c) for c in gen_cases()], 'interface': interface_check(),
-               'optimizers': optimizer_runs()})
+    seqs = gen_seqs()
+    hlib.emit({'cases': [run_case(c) for c in gen_cases()], 'seq_inputs': seqs, 'seqs': [run_seq(c) for c in seqs],
+               'interface': interface_check(), 'optimizers': optimizer_runs()})
 
 
 if __name__ == '__main__':
